@@ -31,15 +31,17 @@ pub struct Pref {
     pub lf: u64,      // 0 = None
     pub dbl: u64,     // 0 = None, 1 = Some(true), 2 = Some(false)
     pub isz: u64,     // 0 = None
+    /// abort predicate: 0 = none, k >= 1 = returns true from its k-th call on (1 = pending from the start)
+    pub abort: u64,
 }
 
 impl Pref {
     pub fn to_json(&self) -> Value {
-        json!({"threads": self.threads, "fb": self.fb, "lf": self.lf, "dbl": self.dbl, "isz": self.isz})
+        json!({"threads": self.threads, "fb": self.fb, "lf": self.lf, "dbl": self.dbl, "isz": self.isz, "abort": self.abort})
     }
     pub fn from_json(v: &Value) -> Pref {
         let g = |k: &str| v.get(k).and_then(|x| x.as_u64()).unwrap_or(0);
-        Pref { threads: g("threads"), fb: g("fb"), lf: g("lf"), dbl: g("dbl"), isz: g("isz") }
+        Pref { threads: g("threads"), fb: g("fb"), lf: g("lf"), dbl: g("dbl"), isz: g("isz"), abort: g("abort") }
     }
     fn build(&self) -> Preferences {
         let mut p = Preferences::default();
@@ -53,6 +55,11 @@ impl Pref {
             _ => None,
         };
         p.interval_size = if self.isz == 0 { None } else { Some(self.isz as u32) };
+        if self.abort > 0 {
+            let k = self.abort;
+            let polls = std::sync::atomic::AtomicU64::new(0);
+            p.should_abort = Some(Box::new(move || polls.fetch_add(1, std::sync::atomic::Ordering::SeqCst) + 1 >= k));
+        }
         p
     }
 }
@@ -997,6 +1004,31 @@ fn run_prop_inner(args: &Args, prop: &str) -> i32 {
     let sd = 60.0;
     match prop {
         "C01" => {
+            // an abort request is a preference like the others: the returned list must still be a valid one
+            // (pending from the start, or from the 2nd / 5th poll on) - small, smooth and simple inputs
+            {
+                let mut arng = crate::gen::rng_for(seed, "c01-abort");
+                let mut i = 0;
+                for shape in ["two", "smooth", "le200sq", "pow2", "pq", "p2q", "smallpq"] {
+                    for alg in ALGOS {
+                        for abort in [1u64, 2, 5] {
+                            let bits = if matches!(alg, "rho" | "squfof" | "qs64") { 48 } else { 64 };
+                            let (n, primes) = make_n(&mut arng, &mut pool, shape, if shape == "pow2" { 12 } else { bits });
+                            works.push(Work::One(Case {
+                                id: format!("{}/abort/{}", driver, i),
+                                n,
+                                alg: alg.to_string(),
+                                pref: Pref { abort, ..Pref::default() },
+                                deadline,
+                                hooks: true,
+                                primes,
+                                shape: json!({"shape": shape, "bits": bits, "alg": alg, "pref": {"abort": abort}}),
+                            }));
+                            i += 1;
+                        }
+                    }
+                }
+            }
             works.extend(sweep_works("s", "auto", 0, if thorough { 1 << 18 } else { 1 << 16 }, 2048, sd));
             let rc = rough_composites(if thorough { 1 << 20 } else { 1 << 17 });
             for alg in ["rho", "ecm128", "siqs", "squfof", "qs", "mpqs", "pm1", "ecm"] {
